@@ -38,6 +38,7 @@ def main():
             binary = checks.BINARIES[d["binary"]]
             hits = 0
             for i in range(a.attempts):
+                vplib.CANCEL.clear()
                 r = vplib.Run(d["variant"], binary, d["args"], cpu=16, timeout=600)
                 vplib.run_all([r], b, tmp, log=log)
                 keys = [v["key"] for v in (r.result or {}).get("violations", [])]
